@@ -24,9 +24,12 @@ PROPERTY = 'C01'
 LEVEL = 'model_checking'
 BOUNDS = {'quick': {'family': 'all 1-CBlock circuits over 2 inputs (arity <= 2, sources: input, _not_input, Const) + catalog',
                     'burst': '<= 3 changes', 'eval order': 'all pop()/iteration-start choices'},
-          'thorough': {'family': 'all 1-CBlock circuits + all 2-CBlock circuits (second block may use the first, '
-                                 'plain or inverted) + catalog', 'burst': '<= 3 changes', 'eval order': 'as quick'}}
+          'thorough': {'family': 'all 1-CBlock circuits + a sample of the 2-CBlock circuits (second block always uses the first, '
+                                 'plain or inverted, plus one free source; per pair of block types one chunk = 1/8 resp. 1/2 of the first '
+                                 "block's wirings over the reduced source set, first 3 evaluation-order choices enumerated) + catalog",
+                       'burst': '<= 3 changes', 'eval order': 'as quick (2-CBlock family: first 3 selection points)'}}
 OUTSIDE = ["exhaustiveness over ALL topologies with <= 3 CBlocks (about 10^8 wirings): only the catalog has 3+ CBlocks",
+           "the complete 2-CBlock family (192 chunks of about 15 CPU-minutes each): the thorough tier takes one chunk per pair of block types",
            "more than 4 inputs", "FuncBlock functions other than those of the catalog", "bursts longer than 3 changes"]
 STUBS = ["Circuit.sblock_queue = stub whose get() yields IDLE when empty; _simulate stepped with send(None)",
          "the name 'set' in edzed.simulator bound to ChoiceSet while stepping (solver-chosen pop / iteration start)"]
@@ -224,8 +227,8 @@ def check_idle(env, label, blocks, ins, cbs, prev_compare):
                 env.note('compare-in-band')
 
 
-def scen_net(env, blocks, ninputs, nburst, feedback=None, first_target=None, picky_input=None):
-    drv = Driver()
+def scen_net(env, blocks, ninputs, nburst, feedback=None, first_target=None, picky_input=None, order_budget=10 ** 9):
+    drv = Driver(order_budget=order_budget)
     vals = [env.int(f'i{k}_init') for k in range(ninputs)]
     ins, cbs = build_circuit(drv, vals, blocks, feedback, picky_input)
     try:
@@ -349,7 +352,7 @@ FEEDBACK = {
 }
 
 
-def scen_family(env, typ, chunk, nchunks, second=None, small=False, nburst=3):
+def scen_family(env, typ, chunk, nchunks, second=None, small=False, nburst=3, order_budget=10 ** 9):
     fam = [b for b in family1(small=small) if b[0] == typ or (b[0] == 'func' and typ == 'func')]
     fam = fam[chunk::nchunks]
     b0 = fam[env.choose(len(fam), 'wiring')]
@@ -360,7 +363,9 @@ def scen_family(env, typ, chunk, nchunks, second=None, small=False, nburst=3):
         t2 = second
         if t2 in ('and', 'or', 'xor'):
             a = S2[env.choose(len(S2), 's2a')]
-            b = S2[env.choose(len(S2), 's2b')]
+            # sized by measurement: with both inputs of the second block free a chunk takes 15-25 CPU-minutes;
+            # one input is always the first block (plain or inverted), the other one is free
+            b = S2[2 + env.choose(2, 's2b')]
             blocks.append((t2, [a, b]))
         elif t2 == 'not':
             blocks.append(('not', [S2[2 + env.choose(2, 's2a')]]))
@@ -373,7 +378,7 @@ def scen_family(env, typ, chunk, nchunks, second=None, small=False, nburst=3):
             blocks.append(('compare', ('cb', 0), 3, 8))
         else:
             blocks.append(('override', ('cb', 0), S2[env.choose(2, 's2a')], None))
-    scen_net(env, blocks, 2, nburst if second is None else 2)
+    scen_net(env, blocks, 2, nburst if second is None else 2, order_budget=order_budget)
 
 
 def scen_catalog(env, name, nburst=3, first_target=None, picky_input=None):
@@ -435,12 +440,17 @@ def shards(tier):
     for name in CATALOG:
         out.append({'name': f'wait_init {name}', 'scenario': 'scen_wait_init', 'params': {'name': name}})
     if tier == 'thorough':
-        for t in types:
-            for t2 in ('and', 'or', 'xor', 'not', 'override', 'compare'):
+        # two-block family: measured at ~15 CPU-minutes per chunk with every evaluation order (200 000 paths), 192 chunks.
+        # Sized to fit: per pair of block types ONE chunk of the first block's wirings (rotating through the chunks, so
+        # that all chunks occur across the pairs) and the first 3 selection points of the evaluation order enumerated
+        # (the rest in name order).  The complete family is outside the claim (OUTSIDE).
+        T2 = ('and', 'or', 'xor', 'not', 'override', 'compare')
+        for ti_, t in enumerate(types):
+            for t2i, t2 in enumerate(T2):
                 if t2 == 'compare' and t != 'func':
                     continue          # Compare is only put behind a numeric FuncBlock
                 n = 8 if t in ('and', 'or', 'xor', 'override', 'func') else 2
-                for c in range(n):
-                    out.append({'name': f'family2 {t}+{t2} chunk{c}', 'scenario': 'scen_family',
-                                'params': {'typ': t, 'chunk': c, 'nchunks': n, 'second': t2}, 'cost': 50})
+                c = (ti_ + t2i) % n
+                out.append({'name': f'family2 {t}+{t2} chunk{c}/{n}', 'scenario': 'scen_family',
+                            'params': {'typ': t, 'chunk': c, 'nchunks': n, 'second': t2, 'order_budget': 3, 'small': True}, 'cost': 50})
     return out
